@@ -36,6 +36,18 @@ def bdep(*bs, extra=frozenset()):
     return ("d", fs, next(_uid))
 
 
+def bxform(b):
+    """the bit as a linear form over GF(2): (set of input bits xor-ed together, constant) -- for constants, copies,
+    complements and for unknown bits that were built by xor-ing such bits (5th component); None otherwise"""
+    if b == 0 or b == 1:
+        return (frozenset(), b)
+    if b[0] == "c":
+        return (frozenset(((b[1], b[2]),)), 0)
+    if b[0] == "n":
+        return (frozenset(((b[1], b[2]),)), 1)
+    return b[4] if len(b) > 4 else None
+
+
 def bnot(b):
     if b == 0:
         return 1
@@ -45,6 +57,8 @@ def bnot(b):
         return ("n", b[1], b[2])
     if b[0] == "n":
         return ("c", b[1], b[2])
+    if len(b) > 4 and b[4] is not None:
+        return (b[0], b[1], next(_uid), None, (b[4][0], 1 - b[4][1]))
     return b
 
 
@@ -89,7 +103,18 @@ def bxor(a, b):
         return 0
     if a[0] in "cn" and b[0] in "cn" and a[1:] == b[1:]:
         return 1
-    return bdep(a, b)
+    r = bdep(a, b)
+    xa, xb = bxform(a), bxform(b)
+    if xa is not None and xb is not None:
+        s_ = xa[0] ^ xb[0]
+        c_ = xa[1] ^ xb[1]
+        if not s_:
+            return c_
+        if len(s_) == 1:
+            (at, i), = s_
+            return ("n" if c_ else "c", at, i)
+        return r + (None, (s_, c_))   # unknown as a bit, but exactly this xor of input bits
+    return r
 
 
 def balts(b):
@@ -97,7 +122,7 @@ def balts(b):
     joins of exact bits; None for a bit that went through arithmetic the bit domain does not follow)"""
     if b == 0 or b == 1 or b[0] in "cn":
         return frozenset((b,))
-    return b[3] if len(b) > 3 else None
+    return b[3] if len(b) > 3 else None   # (None for xor-forms)
 
 
 def bjoin(a, b, cond_deps=frozenset()):
@@ -318,6 +343,16 @@ class Lin:
             if b[0] == "shr":
                 out = out.add(shr_lin(b[1].simplify(ranges), b[2]).scale(k))
                 continue
+            if b[0] == "abs":
+                inner_ = b[1].simplify(ranges)
+                lo_, hi_ = inner_.interval(ranges)
+                if lo_ >= 0:
+                    out = out.add(inner_.scale(k))
+                elif hi_ <= 0:
+                    out = out.add(inner_.scale(-k))
+                else:
+                    out = out.add(Lin(0, ((("abs", inner_, 0), k),)))
+                continue
             inner = b[1].simplify(ranges)
             lo, hi = inner.interval(ranges)
             if b[0] == "mod":
@@ -351,6 +386,8 @@ def base_key(b):
         return f"{b[0]}({b[1].key()},{b[2].key()})"
     if b[0] == "shr":
         return f"shr({b[1].key()},{b[2]})"
+    if b[0] == "abs":
+        return f"abs({b[1].key()})"
     return f"sx({b[1].key()},{b[2]})"
 
 
@@ -384,6 +421,8 @@ def base_pretty(b):
         return f"({b[1].pretty()}) {({'mul': '*', 'div': '/', 'rem': '%'})[b[0]]} ({b[2].pretty()})"
     if b[0] == "shr":
         return f"(({b[1].pretty()}) >> {b[2]})"
+    if b[0] == "abs":
+        return f"|{b[1].pretty()}|"
     if b[0] == "mod":
         m = b[2]
         ms = f"2^{m.bit_length()-1}" if m & (m - 1) == 0 else str(m)
@@ -419,6 +458,13 @@ def base_interval(b, ranges):
     if b[0] == "shr":
         lo, hi = b[1].interval(ranges)
         return lo >> b[2], hi >> b[2]
+    if b[0] == "abs":
+        lo, hi = b[1].interval(ranges)
+        if lo >= 0:
+            return lo, hi
+        if hi <= 0:
+            return -hi, -lo
+        return 0, max(-lo, hi)
     w = b[2]
     lo, hi = b[1].interval(ranges)
     if -(1 << (w - 1)) <= lo and hi < (1 << (w - 1)):
@@ -441,6 +487,8 @@ def base_eval(b, env):
         return q if b[0] == "div" else x - q * y
     if b[0] == "shr":
         return b[1].eval(env) >> b[2]
+    if b[0] == "abs":
+        return abs(b[1].eval(env))
     v = b[1].eval(env) % (1 << b[2])
     return v - (1 << b[2]) if v >= (1 << (b[2] - 1)) else v
 
